@@ -7,6 +7,7 @@ import (
 	"os"
 	"runtime"
 	"sort"
+	"strconv"
 	"strings"
 	"sync/atomic"
 	"testing"
@@ -187,9 +188,21 @@ func WorkerMain(t *testing.T) {
 		if a.Mode == "determinism" {
 			out.Hashes = map[string]uint64{}
 		}
+		memLimit := uint64(1200)
+		if v, err := strconv.Atoi(os.Getenv("VERIF_WORKER_MEM_MB")); err == nil && v > 0 {
+			memLimit = uint64(v)
+		}
 		for run := a.From; run < a.To; run += a.Stride {
 			if a.WallS > 0 && time.Since(start).Seconds() > a.WallS {
 				break
+			}
+			if out.Runs > 0 && out.Runs%64 == 0 && a.Mode == "explore" {
+				var ms runtime.MemStats
+				runtime.ReadMemStats(&ms)
+				if ms.Sys>>20 > memLimit {
+					out.NextFrom = run
+					break
+				}
 			}
 			journal(a.Out, run)
 			tape := NewTape(RunSeed(a.Seed, a.Prop, run))
@@ -265,6 +278,12 @@ func WorkerMain(t *testing.T) {
 		out.Replayed = best
 	}
 	out.WallS = time.Since(start).Seconds()
+	{
+		var ms runtime.MemStats
+		runtime.ReadMemStats(&ms)
+		out.SysMB = int(ms.Sys >> 20)
+		out.Goroutines = runtime.NumGoroutine()
+	}
 	b, _ := json.Marshal(out)
 	if err := os.WriteFile(a.Out, b, 0o644); err != nil {
 		fmt.Fprintln(os.Stderr, err)
